@@ -20,8 +20,8 @@ Allowed(r) ==
                 \/ (r.outcome = "special" /\ NoValue(r.ast))                      \* Infinity / NaN only where nothing has a value
 
 Init == l = 1
-Observe == l <= Len(Rec) /\ Allowed(Rec[l]) /\ l' = l + 1
-Reject  == /\ l <= Len(Rec) /\ ~Allowed(Rec[l])
+Observe == l <= Len(Rec) /\ (Allowed(Rec[l]) = TRUE) /\ l' = l + 1
+Reject  == /\ l <= Len(Rec) /\ (Allowed(Rec[l]) = FALSE)
            /\ PrintT(<<"REJECT", ToJson([id |-> Rec[l].id])>>) /\ l' = l + 1
 Next == Observe \/ Reject
 Spec == Init /\ [][Next]_l
